@@ -156,7 +156,11 @@ CHECKS = {
              "C08_grid_reset_fresh (from ANY prior world, a full reset through a placement state, HealthState, AmmoState "
              "and OrientationState in any order leaves every agent alive, with its declared or a freshly drawn legal "
              "health / ammunition / orientation / position, standing in a cell that stores it, and the consistency "
-             "invariant holds; nothing in the conclusion refers to the prior world). Super-agent / communication "
+             "invariant holds; nothing in the conclusion refers to the prior world), and grid_reset_forgets / "
+             "grid_fresh_twin (two worlds with the same configuration -- whatever their cells, positions, health, "
+             "ammunition and orientation -- are mapped by a full reset to the SAME outcome, error or world and remaining "
+             "tape, so every history after a reset has the same trace on a used and on a newly built world). "
+             "Super-agent / communication "
              "wrappers: the reset clauses of C14_trace and of C20's trace theorem. Tie: used-versus-fresh twins on the "
              "real code (dirty with a generated prefix, reset, follow-up under a fresh seed vs a newly built copy): both "
              "traces must be identical and equal to the model's; for the grid components the prefix is a history of "
@@ -167,8 +171,7 @@ CHECKS = {
                                    "differential runs on the real code",
         note=NOTE + " Layers covered in this check: the three managers, the OpenSpiel adapter, GymABS (state-equality "
              "theorems + twins), the grid-world state components (C08_grid_reset_fresh + twins through the C03 history "
-             "model; an equality-of-states theorem for the placement model is not proved: the model is only ever run on "
-             "the fresh world), the super-agent and communication wrappers and repeated placement resets (cases "
+             "model), the super-agent and communication wrappers and repeated placement resets (cases "
              "forwarded from C14 / C20 / C13, judged by those properties' proved trace specifications)."),
     "C19": dict(
         text="Lean 4 theorems over a universe PyVal of Python values (None, bool, int, float incl. nan/inf, str, list, "
